@@ -250,8 +250,8 @@ def gen_jobs(tier, rng):
         sysprogs += [(4, [[[1, 2, 3, 4]], [[1, 2, 3, 5]]]), (1, [[[IMAX], [0]], [[63], [64]]]), (2, [[[0, 1], [4096, 1]], [[4096, 1], [0, 1]]]),
                      (3, [[[0, 0, 0]], [[0, 0, 0]], [[0, 0, 1]]])]
     for dim, progs in sysprogs:
-        fam["systematic"].append("T %d n %s P2:%d" % (dim, fmt_progs(progs), 45 if q else 800))
-        fam["systematic"].append("T %d h %s P1:%d" % (dim, fmt_progs(progs), 12 if q else 150))
+        fam["systematic"].append("T %d n %s P2:%d" % (dim, fmt_progs(progs), 100 if q else 800))
+        fam["systematic"].append("T %d h %s P1:%d" % (dim, fmt_progs(progs), 25 if q else 150))
     # real-thread stress: 2..8 threads, larger programs
     for k in range(30 if q else 300):
         dim = rng.choice([1, 2, 3, 4])
